@@ -1,0 +1,11 @@
+// Copyright (C) 2026 Storj Labs, Inc.
+// See LICENSE for copying information.
+
+//go:build !verif
+// +build !verif
+
+package drpcdebug
+
+// Point is a named scheduling point. It does nothing unless built with the
+// verif build tag.
+func Point(name string, who interface{}) {}
